@@ -458,6 +458,26 @@ theorem goi_hooks_gc_eq (ub : UB) (g : Goi ub) (a : AG ub.σ) (hR : Rel g a) (hr
           | inr h => rw [hd] at h; exact absurd h (by simp)
       simp [goiHookGC, nativeHookGC, hfin, hf, hd, hcl]
 
+/-- **goi_hooks_raise_eq**: also when the user's `firstiter` hook raises, a consumer call on corresponding
+    objects has the same outcome (the hook's exception, from the first call only), makes the same hook calls,
+    captures the same finalizer, and leaves corresponding objects: the generator is still new and idle and the
+    next call runs the body. -/
+theorem goi_hooks_raise_eq (ub : UB) (hub : NoOOB ub) (h : HookCfg) (g : Goi ub) (a : AG ub.σ) (hR : Rel g a)
+    (hs hn : HookSt) (hH : HookRel hs hn a) (op : COp) (hop : OpOk op) :
+    (goiCallH ub h hs op g).2 = (nativeCallH ub h hn op a).2 ∧
+    (goiCallH ub h hs op g).1.2 = (nativeCallH ub h hn op a).1.2 ∧
+    ((nativeCallH ub h hn op a).2.1 ≠ ignoredGE →
+      Rel (goiCallH ub h hs op g).1.1 (nativeCallH ub h hn op a).1.1) := by
+  obtain ⟨hev, hst, _⟩ := goi_hooks_call_eq ub h g a hR hs hn hH
+  obtain ⟨hout, hrel⟩ := goi_step_eq ub hub g a hR op hop
+  unfold goiCallH nativeCallH
+  simp only [hev, hst]
+  by_cases hr : hookRaised h (nativeHookCall h hn a).2 = true
+  · simp [hr]
+    intro _; exact hR
+  · simp [hr, hout]
+    intro hne; exact (hrel hne).1
+
 /-- the finding repaired by fixes/C06-asyncgen-hooks.patch: the old `__del__` handed a *finished* iterator
     to the finalizer, a native generator never is -/
 example : goiHookGCOld ⟨true, true⟩ = [.finalizer] ∧
